@@ -4,6 +4,7 @@ document; configure() on each is validated against Config!Canon (ConfigTrace) an
 output (PairTrace, kind "same")."""
 from __future__ import annotations
 
+import datetime
 import glob
 import os
 import random
@@ -29,6 +30,8 @@ def toml_dumps(d, prefix=""):
             return "true" if v else "false"
         if isinstance(v, (int, float)):
             return repr(v)
+        if isinstance(v, datetime.datetime):          # TOML local date-time (bare)
+            return v.strftime("%Y-%m-%dT%H:%M:%S")
         if isinstance(v, str):
             return '"' + v.replace("\\", "\\\\").replace('"', '\\"') + '"'
         if isinstance(v, (list, tuple)):
@@ -47,6 +50,34 @@ def toml_dumps(d, prefix=""):
     return txt
 
 
+def tval(fv, t):
+    """a time as the document spells it: ISO string, or the format's native date-time (YAML timestamp / TOML local date-time)"""
+    if fv.get("timeform") == "native":
+        return datetime.datetime(2000, 1, 1) + datetime.timedelta(seconds=int(t))
+    return iso(t)
+
+
+def pval(fv, secs):
+    """a period as the document spells it: seconds, [value, unit] or ISO 8601"""
+    f = fv.get("perform", "int")
+    if f == "list":
+        return [secs // 60, "m"] if secs % 60 == 0 else [secs, "s"]
+    if f == "iso":
+        return f"PT{secs // 60}M" if secs % 60 == 0 else f"PT{secs}S"
+    return secs
+
+
+def psecs(v):
+    """seconds of a period in any of the accepted spellings (projection side)"""
+    import re
+    if isinstance(v, (list, tuple)):
+        return int(v[0]) * {"s": 1, "m": 60, "h": 3600}[str(v[1])]
+    if isinstance(v, str):
+        m = re.fullmatch(r"PT(?:(\d+)H)?(?:(\d+)M)?(?:(\d+)S)?", v)
+        return int(m.group(1) or 0) * 3600 + int(m.group(2) or 0) * 60 + int(m.group(3) or 0)
+    return int(v)
+
+
 def first_file(sc):
     from ..world import partition
     return file_names(sc, len(partition(len(sc["ftimes"]), sc["cuts"])))[0]
@@ -55,17 +86,19 @@ def first_file(sc):
 def v2_doc(sc, work):
     fv = sc["fv"]
     out_iv = {v: dict(encoding=dict(datatype=t), attributes=dict(long_name=v)) for v, t in [("pid", "i4"), ("X", "f8"), ("Y", "f8"), ("Z", "f8")]}
-    doc = dict(version=2,
-               time=dict(start=iso(sc["start"]), stop=iso(sc["stop"]), dt=sc["dt"], **({"reference": iso(sc["ref"])} if sc["fv"].get("hasref") else {})),
+    doc = dict(version={"int": 2, "float": 2.0, "str": "2.0"}[fv.get("vform", "int")],
+               time=dict(start=tval(fv, sc["start"]), stop=tval(fv, sc["stop"]), dt=pval(fv, sc["dt"]), **({"reference": tval(fv, sc["ref"])} if sc["fv"].get("hasref") else {})),
                forcing=dict(module=sc.get("usermod") or "ladim.ROMS", filename=os.path.join(work, "f_*.nc" if fv["wildcard"] else first_file(sc))),
                tracker=dict(advection=fv["adv"]),
                state=dict(particle_variables=dict(release_time="time", **({"farmid": "int"} if fv["extracol"] else {}))),
-               release=dict(release_file=os.path.join(work, "r.rls"), names=names(fv), continuous=fv["cont"]),
-               output=dict(filename=os.path.join(work, "OUTNAME"), output_period=sc["dt"] * sc["ops"], instance_variables=out_iv))
+               release=dict(release_file=os.path.join(work, "r_h.rls" if fv.get("hdr") else "r.rls"), continuous=fv["cont"], **({} if fv.get("hdr") else {"names": names(fv)})),
+               output=dict(filename=os.path.join(work, "OUTNAME"), output_period=pval(fv, sc["dt"] * sc["ops"]), instance_variables=out_iv))
+    if fv.get("fmod") and not sc.get("usermod"):      # the forcing (and grid) module left to its default
+        doc["forcing"].pop("module")
     if fv["diffusion"]:
         doc["tracker"]["diffusion"] = float(fv["diffusion"])
     if fv["cont"]:
-        doc["release"]["release_frequency"] = fv["freq"]
+        doc["release"]["release_frequency"] = pval(fv, fv["freq"])
     if fv.get("ibm"):          # a user IBM with its own instance variable (and, with xforce, scalar forcing as a further one)
         extra = ["age"] + (["temp"] if fv.get("xforce") else [])
         doc["state"]["instance_variables"] = {v: "float" for v in extra}
@@ -77,6 +110,8 @@ def v2_doc(sc, work):
             doc["forcing"]["extra_forcing"] = ["temp"]
     if fv["gridsec"] != "omitted":
         doc["grid"] = dict(module=sc.get("usermod") or "ladim.ROMS")
+        if fv.get("fmod") and not sc.get("usermod"):
+            doc["grid"].pop("module")
         if fv["gridsec"] == "explicit":
             doc["grid"]["filename"] = os.path.join(work, "grid_only.nc")
         if fv["subgrid"]:
@@ -99,7 +134,7 @@ def v1_doc(sc, work):
         pr["farmid"] = "int"
     if fv["cont"]:
         pr["release_type"] = "continuous"
-        pr["release_frequency"] = fv["freq"]
+        pr["release_frequency"] = pval(fv, fv["freq"])
     files = dict(particle_release_file=os.path.join(work, "r.rls"), output_file=os.path.join(work, "OUTNAME"))
     where = files if fv.get("v1files") else None          # version 1 accepts the forcing / grid file names in its `files` section as well
     gf = dict(module=sc.get("usermod") or "ladim1.gridforce.ROMS")
@@ -111,12 +146,12 @@ def v1_doc(sc, work):
     extra = (["age"] + (["temp"] if fv.get("xforce") else [])) if fv.get("ibm") else []
     if fv.get("xforce") and fv.get("ibm"):
         gf["extra_forcing"] = ["temp"]
-    ov = dict(outper=sc["dt"] * sc["ops"], format="NETCDF4", instance=["pid", "X", "Y", "Z"] + extra, age=dict(ncformat="f8", long_name="age"), temp=dict(ncformat="f8", long_name="temp"), particle=(["release_time"] + (["farmid"] if fv["extracol"] else [])) if fv["pvars"] else [],
+    ov = dict(outper=pval(fv, sc["dt"] * sc["ops"]), format="NETCDF4", instance=["pid", "X", "Y", "Z"] + extra, age=dict(ncformat="f8", long_name="age"), temp=dict(ncformat="f8", long_name="temp"), particle=(["release_time"] + (["farmid"] if fv["extracol"] else [])) if fv["pvars"] else [],
               pid=dict(ncformat="i4", long_name="pid"), X=dict(ncformat="f8", long_name="X"), Y=dict(ncformat="f8", long_name="Y"), Z=dict(ncformat="f8", long_name="Z"),
               release_time=dict(ncformat="f8", long_name="particle release time", units="seconds since reference_time"), farmid=dict(ncformat="i4", long_name="farm"))
-    doc = dict(time_control=dict(start_time=iso(sc["start"]), stop_time=iso(sc["stop"]), **({"reference_time": iso(sc["ref"])} if fv.get("hasref") else {})),
+    doc = dict(time_control=dict(start_time=tval(fv, sc["start"]), stop_time=tval(fv, sc["stop"]), **({"reference_time": tval(fv, sc["ref"])} if fv.get("hasref") else {})),
                files=files,
-               gridforce=gf, particle_release=pr, numerics=dict(dt=sc["dt"], advection=fv["adv"], diffusion=float(fv["diffusion"])), output_variables=ov)
+               gridforce=gf, particle_release=pr, numerics=dict(dt=pval(fv, sc["dt"]), advection=fv["adv"], diffusion=float(fv["diffusion"])), output_variables=ov)
     if fv["optsec"] == "present":
         doc["ibm"] = dict()
     if fv.get("ibm"):
@@ -136,15 +171,19 @@ def project(conf, work):
     rel = conf["release"]
     out = conf["output"]
     cont = bool(rel.get("continuous", False))
-    return dict(start=secs_of(t["start"]), stop=secs_of(t["stop"]), dt=int(t["dt"]), ref=(secs_of(t["reference"]) if t.get("reference") else -1),
+    def header_of(path):
+        with open(path) as f:
+            return f.readline().split()
+    return dict(start=secs_of(t["start"]), stop=secs_of(t["stop"]), dt=psecs(t["dt"]), ref=(secs_of(t["reference"]) if t.get("reference") else -1),
                 gridfile=base(conf["grid"].get("filename", "")), subgrid=bool(conf["grid"].get("subgrid")), forcing=base(conf["forcing"]["filename"]),
                 adv=conf["tracker"].get("advection", ""), diffusion=int(round(float(conf["tracker"].get("diffusion", 0)))),
-                cont=cont, freq=int(rel.get("release_frequency", 0)) if cont else 0, names=list(rel.get("names") or []),
+                cont=cont, freq=psecs(rel.get("release_frequency", 0)) if cont else 0, names=list(rel.get("names") or []),
+                header=(header_of(rel["release_file"]) if not rel.get("names") else []),
                 state_pvars=sorted((conf.get("state") or {}).get("particle_variables") or {}),
                 state_ivars=sorted((conf.get("state") or {}).get("instance_variables") or {}), has_ibm=bool((conf.get("ibm") or {}).get("module")),
                 ibm_inc=int((conf.get("ibm") or {}).get("inc", 0)), extra_forcing=list(conf["forcing"].get("extra_forcing") or []),
                 out_ivars=sorted(out["instance_variables"]), out_pvars=sorted(out.get("particle_variables") or {}),
-                outper=int(out["output_period"]), gridmod=base(conf["grid"].get("module", "")), forcemod=base(conf["forcing"].get("module", "")))
+                outper=psecs(out["output_period"]), gridmod=base(conf["grid"].get("module", "")), forcemod=base(conf["forcing"].get("module", "")))
 
 
 def run_spellings(sc):
@@ -161,9 +200,12 @@ def run_spellings(sc):
     pair = [dict(ev="setup", kinds=[] if fv["diffusion"] else ["same", "same"])]
     try:
         write_files(sc, work)
-        with open(os.path.join(work, "r.rls"), "w") as f:
-            for r in sc["rows"]:
-                f.write(f"{r['mult']} {iso(r['t'])} {r['xf']!r} {r['yf']!r} {r['zf']!r}" + (f" {r['id']}" if fv["extracol"] else "") + "\n")
+        for fname, head in (("r.rls", False), ("r_h.rls", True)):       # the same table without and with a header line
+            with open(os.path.join(work, fname), "w") as f:
+                if head:
+                    f.write(" ".join(names(fv)) + "\n")
+                for r in sc["rows"]:
+                    f.write(f"{r['mult']} {iso(r['t'])} {r['xf']!r} {r['yf']!r} {r['zf']!r}" + (f" {r['id']}" if fv["extracol"] else "") + "\n")
         # an explicitly named grid file is a file of its own with twice the grid spacing: reading the grid from a forcing file instead changes the run
         from netCDF4 import Dataset
         shutil.copy(os.path.join(work, first_file(sc)), os.path.join(work, "grid_only.nc"))
@@ -262,6 +304,11 @@ def scenario(rng):
     fv["xforce"] = fv["ibm"] and rng.random() < 0.5
     fv["v1files"] = rng.random() < 0.4
     fv["nullsec"] = rng.random() < 0.5
+    fv["hdr"] = rng.random() < 0.4                                  # version 2 relies on the header line of the release file, version 1 names the columns
+    fv["fmod"] = rng.random() < 0.4                                 # forcing / grid module left to the default in version 2
+    fv["timeform"] = rng.choice(["str", "str", "native"])
+    fv["perform"] = rng.choice(["int", "int", "list", "iso"])
+    fv["vform"] = rng.choice(["int", "float", "str"])
     if fv["xforce"]:
         base["hasscal"] = True
     base["fv"] = fv
